@@ -163,9 +163,12 @@ CLAIMED = {
         category="model_checking",
         text=("The variable-time u*P+v*G routines (and 128-bit / mu variants in the thorough tier) equal the plain "
               "combination for all valid wNAF digit arrays (skipped zero columns, coalesced doublings and the neutral-"
-              "accumulator flag are symbolic); the NAF recoders meet their contracts for all inputs."),
+              "accumulator flag are symbolic); the NAF recoders meet their contracts for all inputs. verify_helper_vartime of p256, ed25519, ed448 "
+              "(and the secp256k1 / ristretto255 / decaf448 wrappers): from entry to the last recoder call every path has multipliers inside the "
+              "recoders' domains, ss = s*C1, k*C1 = C0, C1 != 0 and no reachable panic (split_vartime by contract); from there to the return the "
+              "digit loop satisfies V' = 2V + D_i on every path of every column and returns the neutral / low-order test of the accumulator."),
         design_ref="DESIGN.md 3 C10; engines/polyid/NOTES.md",
-        note="verify_helper_vartime glue is covered by C07 (Ed25519) / C11's K part; digits assumed only 0 or odd with |d|<=15.",
+        note="split_vartime enters by contract (C11; for ed448 the magnitude bound 2^224 is assumed); has_low_order <=> cofactor*P = 0 is checked natively only; digits assumed 0 or odd with |d|<=15.",
     ),
     "C14": dict(
         engine="polyid",
